@@ -245,6 +245,10 @@ def run(ctx):
 
     # ------------------------------------------------------------------ (3) server guard
     S = Server(F, P)
+    # a response handed to the channel reclaims its request's entry before anything else: the transport write sits on the hit edge of the removal, so a write
+    # that fails (and is passed on or swallowed) cannot leave the entry and its timer behind until the deadline
+    from .server_common import tracked_gate
+    tracked_gate(ctx, 'C11.response', S)
     flag = F.field_of_type('server::ResponseGuard', lambda t: t == 'bool')
     idf = F.field_of_type('server::ResponseGuard', lambda t: t == 'u64')
     # created inert in the registration
